@@ -72,6 +72,7 @@ class Emitter:
         self.extern_funcs = collections.OrderedDict()  # C name -> declaration text (modelled std callees)
         self.struct_defs = collections.OrderedDict()
         self.facts = collections.OrderedDict()         # macro -> (C++ expression, C type) computed by g++
+        self.leaf_called = set()
         self.site_counter = {}
         self.site_alias = collections.OrderedDict()    # alias C name -> [leaf fn id, leaf key, caller C name, call text]
 
@@ -1232,6 +1233,8 @@ class Emitter:
 
     def direct_call(self, fn, n, args, obj):
         name = self.need(fn)
+        if fn['id'] in self.leaves:
+            self.leaf_called.add(fn['id'])
         if fn['id'] in self.leaves and self.leaves[fn['id']][1] in self.opts.get('per_site_leaves', ()):
             # one alias per call site, so that the call-site precondition of the contract is a separate, named
             # obligation for every site (dfcc otherwise shares one assertion between all call sites)
